@@ -143,4 +143,32 @@ PROPS["C10"] = {
     "assumptions": ["IDL constants stay below 2^31; idl_theory::inf() is read as +infinity"],
 }
 
+PROPS["C11"] = {
+    "runs": _net("C11", 600, 12000, 300),
+    "rule": "Case: 1-5 LRA variables; 2-14 root-level steps among: request a relation literal (5 relations x expression shapes of C09, 1/4 of them an equivalent re-request: "
+            "scaled by a positive constant), assert a returned literal (or its negation) at root so that root bounds tighten, an assume/pop episode that pivots the tableau so later "
+            "requests meet basic variables, creation of a derived variable. Oracles: constant answer (TRUE/FALSE or a root-decided literal) => Z3: the root constraints entail / refute "
+            "the relation; an already known literal => old meaning <=> new relation under the root constraints; requesting changes no pre-existing root value and keeps a satisfiable "
+            "network consistent; afterwards each fresh literal and its negation is assumed: accepted => values satisfy / falsify the relation (exact evaluation) and, the state being "
+            "conjunctive, acceptance <=> feasibility (Z3); a refusal is justified by infeasibility. Non-trivial: a constant answer, a shared literal, or a request over a basic variable.",
+    "technique": "property-based testing against Z3 (QF_LRA) and exact GMP evaluation; metamorphic re-requests (scaled-equivalent relations)",
+    "level_text": "Random request sequences at root level; meaning of every returned literal compared with an independent decision procedure in both directions.",
+    "level_note": _NET_TRUST,
+    "assumptions": [],
+}
+PROPS["C12"] = {
+    "runs": _net("C12", 500, 10000, 300, subs=("idl", "rdl")),
+    "rule": "Case: 2-6 time points of IDL (sub-run idl) or RDL (sub-run rdl), a consistent root state of 0-6 asserted distance constraints (some points bounded, some not), then "
+            "2-10 steps: relation requests over all 5 relations x {constants, c*x+k on either side, c*x+k vs c*y+k', c*(x-y)+k on one side} x c in +-{1,2,3,1/2} x integer / half-integer k, "
+            "plus shapes outside difference logic; or queries bounds(lin), distance(lin,lin), equates(lin,lin). Oracles: constant answer => Z3 entails/refutes; fresh literal => "
+            "assuming it / its negation is accepted exactly when feasible (Z3) and the distances then equal the Floyd-Warshall closure; IDL may throw std::invalid_argument only when the "
+            "normalised constant is not an integer, shapes outside difference logic must be rejected with std::invalid_argument; queries equal the interval image of the expression "
+            "under the variable-level distance(var,var) (finite sides only), equates == (0 in that interval). Non-trivial: two variables with the larger id first, negative c, a strict "
+            "relation, or a non-zero k.",
+    "technique": "property-based testing against Z3 (QF_IDL / QF_LRA), own Floyd-Warshall and exact interval arithmetic",
+    "level_text": "Random root states and requests; every sign / arity branch of the hand-written case analysis is reached many times per run (class histogram in the evidence).",
+    "level_note": _NET_TRUST,
+    "assumptions": ["for IDL, non-integer c or k may be rejected; if a value is returned it must be exact"],
+}
+
 NOT_CLAIMED = {}
